@@ -208,6 +208,26 @@ func (b *bGen) entry(class string) *bEntry {
 		pk, Rb, S := k.sign(c, 1+g.Intn(7), g.Intn(8), bi0)
 		e.pk, e.sig = pk, mkSig(Rb, S)
 		e.flags = "23"
+	case "torsion.stdlib.valid":
+		// a key with a small-order component whose signature IS valid under the cofactorless rule: [S]B − [k](A + T) = R − [k]T,
+		// so k has to be a multiple of the order of T — messages are drawn until it is.  (k, A) ↦ (−k mod L, −A) is not
+		// an identity on such keys: every place that moves the sign between scalar and point shows here.)
+		ta := []int{4, 2, 6, 4}[g.Intn(4)]
+		ord := int64(map[int]int{4: 2, 2: 4, 6: 4}[ta])
+		for try := 0; try < 400; try++ {
+			if c.f == 1 {
+				c.msg = g.Bytes(64)
+			} else {
+				c.msg = g.Bytes(1 + g.Intn(60))
+			}
+			pk, Rb, S := k.sign(c, ta, 0, bi0)
+			kk := new(big.Int).Mod(refH(refDom2(c.f, c.ctx), Rb, pk, c.msg), refL)
+			e.pk, e.sig, e.msg = pk, mkSig(Rb, S), c.msg
+			if new(big.Int).Mod(kk, big.NewInt(ord)).Sign() == 0 {
+				break
+			}
+		}
+		e.flags = "23"
 	case "dS": // S off by a small amount (mod L): admissible but invalid
 		pk, Rb, S := k.sign(c, 0, 0, big.NewInt(int64(1+g.Intn(5))*int64(1-2*g.Intn(2))))
 		e.pk, e.sig = pk, mkSig(Rb, S)
@@ -300,7 +320,7 @@ func (b *bGen) entry(class string) *bEntry {
 var bBadClasses = []string{"dS", "dS", "Snonmin", "flip", "flip", "flippk", "wrongmsg", "smallA", "smallR", "noncanR", "noncanA",
 	"small0", "siglen", "pklen", "randA", "randR", "badopt", "torsion.stdlib", "stdlib", "randopt"}
 
-var bAllClasses = append([]string{"honest", "honest", "honest", "torsion", "torsion", "stdlib"}, bBadClasses...)
+var bAllClasses = append([]string{"honest", "honest", "honest", "torsion", "torsion", "stdlib", "torsion.stdlib.valid"}, bBadClasses...)
 
 // cancelling tuple: entries whose individual errors are multiples d_i of B with sum 0 (mod L)
 func (b *bGen) cancelling(n int) []*bEntry {
@@ -384,7 +404,7 @@ func genB1(g *Gen) {
 	// single verifications
 	{
 		sid := 7
-		for _, cl := range []string{"torsion.stdlib", "Snonmin", "pklen", "stdlib"} {
+		for _, cl := range []string{"torsion.stdlib", "torsion.stdlib.valid", "Snonmin", "pklen", "stdlib"} {
 			for pos := 0; pos < 3; pos++ {
 				for path := 0; path < 4; path++ {
 					if g.Full() {
